@@ -328,6 +328,25 @@ def run_history(case) -> CaseResult:
         settle_results()
         # let application-level steps run, wire untouched
         h.settle()
+
+        # a command that ends by itself ('hello' at once, 'flood' as soon as
+        # its output is taken): wait() takes the output, so at quiescence -
+        # with the connection still up - every wait() must have completed
+        if behaviour in ('hello', 'flood') and \
+                any(kind == 'wait' for kind, _ in tasks):
+            h.pump(chunker)
+            stuck = [kind for kind, t in tasks if kind == 'wait' and
+                     not t.done()]
+            labels.add('wait-before-term')
+
+            if stuck and not pair.c.is_closed():
+                raise Violation(
+                    'hung-waiter', 'the command (%s) has written its output '
+                    'and exited, the connection is up and quiescent, yet '
+                    'process.wait() is still pending (window %d)' %
+                    (behaviour, case['window']),
+                    'hung:wait:command-exited')
+
         pending_kinds = sorted({kind for kind, t in tasks if not t.done()})
         term = case['term']
         labels.add('term:' + term[0])
@@ -809,6 +828,9 @@ SCRIPTS = [
     # a writer blocked in drain() AFTER the peer's EOF has arrived (client
     # writer against 'eof-gated', server writer against 'flood')
     [['proc'], ['pump'], ['eof', 0], ['pump']],
+    # more than a window of output has arrived unread (the channel is
+    # paused) and the command is finished or blocked when wait() is called
+    [['proc'], ['pump'], ['wait', 0]],
 ]
 
 
@@ -864,6 +886,8 @@ def cut_cases(tier: str):
             servers += ['flood']
         if ['drain', 0] in script:
             servers += ['eof-gated']
+        if script == [['proc'], ['pump'], ['wait', 0]]:
+            servers += ['flood']
         for server in servers:
             for side in ('c', 's'):
                 for d in range(0, 8):
@@ -885,7 +909,7 @@ FAMILIES = [
                      ['pending:' + k for k in
                       ('read', 'wait', 'drain', 'proc', 'sftp-read',
                        'sftp-stat', 'forward', 'run', 'wait_closed')] +
-                     ['cut-mid-record',
+                     ['cut-mid-record', 'wait-before-term',
                       'drain-blocked-after-peer-eof:client',
                       'drain-blocked-after-peer-eof:server']},
            case_timeout=120, timeout_is_violation=True),
